@@ -140,7 +140,10 @@ class CallHooks(object):
         return [N('InvocationStatementNode', invocation=inv, _lead=lead)]
 
 
-def gen_graph(ints):
+OAL_TY = {'integer': 'int', 'string': 'str', 'boolean': 'bool', 'real': 'real'}
+
+
+def gen_graph(ints, for_prebuild=False):
     t = Tape(ints)
     order = []
     specs = [('function', 'f0', None), ('bridge', 'b0', 'MYEE'), ('instop', 'iop', 'A'), ('function', 'f1', None),
@@ -159,6 +162,10 @@ def gen_graph(ints):
         g = Gen(t, max_stmts=5, max_depth=2, calls=hooks if order else None, params=dict(c.params),
                 self_cls=cls if kind in ('instop', 'derived') else None, ret_ty=c.ret if kind != 'derived' else None,
                 allow_return=kind != 'derived')
+        g.enums = ('Color', [e for e in ENUM if e != 'None'])
+        g.consts = [('Limits', n, OAL_TY[ty]) for n, ty, _v in CONSTS]
+        g.const_style = 'namespaced' if for_prebuild else 'plain'
+        g.arrays = for_prebuild
         env = Env()
         recursive = kind == 'function' and c.ret == 'int' and t.pick(3) == 0
         stmts = []
